@@ -38,7 +38,8 @@ CONSTANTS Xsd,          \* "10" | "11"
           GridName,     \* "tiny" | "small" | "full"
           MaxOps,       \* 1: one operation per grid value, 2: chains of two
           LawOps,       \* the full set of laws is evaluated on values with ops <= LawOps
-          ImplicitTZ    \* the implicit timezone of the dynamic context, minutes (0 = UTC)
+          ImplicitTZcfg \* the implicit timezone of the dynamic context, minutes (0 = UTC); a cfg file cannot
+                        \* hold a negative number: 10000 + m stands for -m (10030 = -00:30)
 
 VARIABLES val,      \* the value
           ops       \* number of operations applied since the literal was constructed: a literal of the
@@ -46,6 +47,7 @@ VARIABLES val,      \* the value
 vars == <<val, ops>>
 
 NoTZ == 9999
+ImplicitTZ == IF ImplicitTZcfg >= 10000 THEN 10000 - ImplicitTZcfg ELSE ImplicitTZcfg
 Min(a, b) == IF a < b THEN a ELSE b
 
 ---------------------------------------------------------------------------
@@ -131,9 +133,11 @@ FullTimes  == {<<0, 0, 0, 0>>, <<12, 30, 15, 0>>, <<23, 59, 59, 999999>>, <<24, 
 SmallTimes == {<<0, 0, 0, 0>>, <<12, 30, 15, 50000>>, <<23, 59, 59, 999999>>, <<24, 0, 0, 0>>}
 TinyTimes  == {<<0, 0, 0, 0>>, <<23, 59, 59, 999999>>}
 Times == IF GridName = "tiny" THEN TinyTimes ELSE IF GridName = "small" THEN SmallTimes ELSE FullTimes
-FullTZs  == {NoTZ, 0, 840, -840, 330, -570}
-SmallTZs == {NoTZ, 0, -840, -570}
-TinyTZs  == {NoTZ, -570}
+(* sub-hour offsets (-00:30, +00:30, -00:01) are in every grid: the sign of such an offset is only in
+   the leading '-' of the lexical form, the hours field is zero *)
+FullTZs  == {NoTZ, 0, 840, -840, 330, -570, -30, 30, -1}
+SmallTZs == {NoTZ, 0, -840, -30}
+TinyTZs  == {NoTZ, -30}
 TZs == IF GridName = "tiny" THEN TinyTZs ELSE IF GridName = "small" THEN SmallTZs ELSE FullTZs
 
 Raw(k, y, md, t, tz) ==
